@@ -167,10 +167,18 @@ def all_topo_orders(chain, ids):
     return rec([], list(ids))
 
 
-def run_tree(mon, rng, nblocks, norders, seed_name, exhaustive_orders=False):
+def run_tree(mon, rng, nblocks, norders, seed_name, exhaustive_orders=False, tall=False):
     world = gen.World(rng)
     world.odd_reward_prob = rng.choice([0.0, 0.3, 0.6])     # valid rewards split over keys / with zero-valued outputs
-    ids = world.grow(nblocks, rng, tx_prob=0.75, bias="mixed")
+    if tall:
+        # a chain well above 32 / 64 blocks (sizes at which hash-trie containers change their iteration order) with a few
+        # forks near the top; spends reach back to outputs created long before
+        ids = world.grow(nblocks - 8, rng, tx_prob=0.75, bias="linear")
+        ids += world.grow(8, rng, tx_prob=0.75, bias="mixed")
+        mon.c["tall_trees"] = mon.c.get("tall_trees", 0) + 1
+        mon.c["max_height_seen"] = max(mon.c.get("max_height_seen", 0), max(world.chain.blocks[b].height for b in ids))
+    else:
+        ids = world.grow(nblocks, rng, tx_prob=0.75, bias="mixed")
     mon.c["trees"] += 1
     mon.c["blocks_with_unusual_reward"] = mon.c.get("blocks_with_unusual_reward", 0) + world.counters.get("odd_rewards", 0)
     mon.c["pending_tx_in_sibling_forks"] += world.counters.get("pending_tx_reused", 0)
@@ -216,6 +224,8 @@ def run_shard(spec):
             run_tree(mon, rng, rng.choice([8, 14, 20, 30, 40]), 4 if quick else 8, "t%d" % j)
         for j in range(2 if quick else 30):
             run_tree(mon, rng, rng.choice([4, 5, 6]), 0, "s%d" % j, exhaustive_orders=True)
+        for j in range(1 if quick else 6):
+            run_tree(mon, rng, rng.choice([44, 70, 100]), 2, "tall%d" % j, tall=True)
     return {"evaluations": mon.c["adds"], "digests": sorted(mon.digests), "violations": mon.viol, "counters": mon.c,
             "samples": mon.samples}
 
@@ -230,6 +240,6 @@ def finalize(m, tier):
         "floors": [("arrival_orders", c.get("arrival_orders", 0), 100), ("uto_maps_compared", c.get("uto_maps_compared", 0), 2000),
                    ("blocks_with_transactions", c.get("blocks_with_transactions", 0), 200),
                    ("reorganisations", c.get("reorganisations", 0), 50),
-                   ("snapshots_rechecked", c.get("snapshots_rechecked", 0), 5000)],
+                   ("snapshots_rechecked", c.get("snapshots_rechecked", 0), 5000), ("tall_trees", c.get("tall_trees", 0), 10)],
         "extra": {"auxiliary_lane": "one shard runs under -X dev -X faulthandler (CPython debug allocator); auxiliary only"},
     }
